@@ -595,6 +595,75 @@ class FdRead(Contract):
         return read_common_post(v, v.old.self) + deadline_post(v, eff_timeout(v))
 
 
+# ---- spawn.waitnoecho ----------------------------------------------------------------------------------------------
+class GetEcho(Contract):
+    """ptyprocess.getecho(): the terminal ECHO flag right now (a termios query, no waiting)"""
+    params = ['self']
+
+    def outcomes(self, v):
+        return [Ret(T.Bool)]
+
+    def effects(self, v):
+        v.g['echo_checks'] = v.g.get('echo_checks', 0) + 1
+        v.g['last_echo'] = v.result
+
+
+class WaitNoEchoLoop(LoopSpec):
+    def vars(self, v):
+        return {'timeout': T.Real} if v.l.timeout is not None else {}
+
+    def ghost(self, v):
+        return {'clk': T.Real, 'echo_checks': T.Int, 'last_echo': T.Bool}
+
+    def invariant(self, v):
+        out = [('clock-forward', v.g['clk'] >= v.g0['clk']), ('checks-counted', v.g['echo_checks'] >= v.g0['echo_checks'])]
+        T0 = eff_timeout(v)
+        if T0 is not None and v.l.has('end_time'):
+            rem = v.l.end_time - v.g['clk']
+            out.append(('remaining-time', And(eq(v.l.end_time, v.g0['clk'] + T0), rem <= v.l.timeout, v.l.timeout <= rem + 0.1,
+                                              v.g['clk'] - v.g0['clk'] <= smax(T0, 0) + 0.2)))
+        return out
+
+
+class WaitNoEcho(Contract):
+    name = PTY + '.waitnoecho'
+    props = ('C05',)
+    loops = {0: WaitNoEchoLoop()}
+    standin = False
+
+    def shape(self, b):
+        p = b.obj('ptyproc', 'iface:ptyproc', sealed=False)
+        sp = b.obj('self', PTY, sealed=False, ptyproc=p, timeout=b.opt('self.timeout', lambda: b.real('self.timeout')))
+        b.ghost('clk', b.real('clk0'))
+        b.ghost('echo_checks', 0)
+        b.ghost('last_echo', True)
+        return dict(self=sp, timeout=timeout_arg(b))
+
+    def requires(self, v):
+        t = v.a.timeout
+        if t is not None and not (isinstance(t, int) or (is_sym(t) and str(t.sort()) == 'Int')):
+            return [('timeout-not-the-sentinel', Not(eq(t, -1)))]
+        return []
+
+    def outcomes(self, v):
+        return [Ret(T.Bool)]
+
+    def exits(self, v):
+        return ()          # in particular timeout=None must not raise
+
+    def ensures(self, v):
+        T0 = eff_timeout(v)
+        dt = v.g['clk'] - v.g0['clk']
+        out = [('C05:true-only-when-echo-was-seen-off', Implies(v.result, Not(v.g['last_echo']))),
+               ('C05:looked-at-least-once', v.g['echo_checks'] >= 1)]
+        if T0 is None:
+            out.append(('C05:none-never-times-out', v.result))
+        else:
+            out += [('C05:false-only-after-the-timeout', Implies(Not(v.result), dt >= T0)),
+                    ('C05:bounded', dt <= smax(T0, 0) + 0.2)]
+        return out
+
+
 def register(reg):
     reg.add_extern('select.select', SelectSelect)
     reg.add_extern('select.poll', SelectPollNew)
@@ -606,7 +675,11 @@ def register(reg):
     reg.add(FdReadBase)
     reg.add(PtyRead)
     reg.add(FdRead)
+    reg.add(WaitNoEcho)
+    reg.add_iface('iface:ptyproc', 'getecho', GetEcho)
     reg.add_extern('os.read', OsReadEnv)
+
+
 
 
 
